@@ -33,9 +33,9 @@ type Run struct {
 	Producers int      `json:"producers"`
 	Consumers int      `json:"consumers"`
 	Values    int      `json:"values"`
-	Done      bool     `json:"done"`     // every goroutine finished
-	Blocked   []string `json:"blocked"`  // goroutines still blocked in the library at the deadline
-	Lost      []int    `json:"lost"`     // values added but never delivered (well-formed runs only)
+	Done      bool     `json:"done"`    // every goroutine finished
+	Blocked   []string `json:"blocked"` // goroutines still blocked in the library at the deadline
+	Lost      []int    `json:"lost"`    // values added but never delivered (well-formed runs only)
 	History   []Event  `json:"history"`
 	Observers int      `json:"observers"`
 }
@@ -185,7 +185,6 @@ func WellFormed(id int, seed int64, deadline time.Duration) Run {
 	}
 	return run
 }
-
 
 // await waits for every goroutine of the run; a run is declared stuck only if
 // it makes no progress at all: on a loaded machine a slow run is not a blocked one
